@@ -3,7 +3,7 @@
 (* Trace validation of behaviour beyond the listed properties (advisory:   *)
 (* rejections are reported as EXTRA-DEVIATION by `./check extras`).        *)
 (***************************************************************************)
-EXTENDS Extras, TLC, Json, IOUtils
+EXTENDS Extras, Scanner, Striped, TLC, Json, IOUtils
 
 VARIABLES l, st
 
@@ -47,6 +47,21 @@ Apply(s, e) ==
                   \/ e.sorted[i][1] < e.sorted[i + 1][1]
                   \/ (e.sorted[i][1] = e.sorted[i + 1][1] /\ e.sorted[i][2] <= e.sorted[i + 1][2])
              /\ {e.sorted[i] : i \in 1..Len(e.sorted)} = {e.hits[i] : i \in 1..Len(e.hits)}, "hit_order")
+    [] e.ev = "alphabet" -> Res(AlphabetOK(e), "alphabet")
+    [] e.ev = "info_content" ->
+         LET x == InfoContent(e.m, e.pn, e.pd, e.K) IN
+         Res(e.ic > -1073741000 /\ e.ic < 1073741000 /\ Abs(e.ic - x) <= 6 * Len(e.m) + 8, "information_content")
+    [] e.ev = "scanner_defaults" ->
+         LET W == e.K - 1
+             n == NScores(Len(e.seq), Len(e.pssm))
+             q == {i \in 0..(n - 1) : WindowScore(e.pssm, e.seq, i, W) >= e.thr}
+         IN Res(/\ {e.hits[j][1] : j \in 1..Len(e.hits)} = q /\ Len(e.hits) = Cardinality(q)
+                /\ \A j \in 1..Len(e.hits) : e.hits[j][2] = WindowScore(e.pssm, e.seq, e.hits[j][1], W), "scanner_defaults")
+    [] e.ev = "sequence_api" ->
+         LET L == Len(e.seq) IN
+         Res(/\ e.len = L /\ e.slen = L /\ e.empty = (L = 0) /\ e.sempty = (L = 0)
+             /\ e.iter = e.seq /\ e.by_index = e.seq /\ e.text_back /\ e.parse_same /\ e.from_vec_same
+             /\ e.wrap >= e.w /\ e.rows = NRows(L, e.C) + e.wrap, "sequence_container_api")
     [] e.ev = "scale_bracket" ->
          \* for every probed score x (grid): unscale(scale(x)) <= x, and x < unscale(scale(x) + 1) unless saturated
          \* (clamped images 0 and 255 are excluded: the score is then outside the matrix's range)
